@@ -113,13 +113,19 @@ Section Access.
 
   Lemma edge_to_faces_correct u v :
     p_edge_to_faces m f u v = Ok [sp_direct_face faces u v; sp_direct_face faces v u].
-  Proof. unfold p_edge_to_faces. rewrite guard_ok, !direct_face_correct. reflexivity. Qed.
+  Proof.
+    unfold p_edge_to_faces, g_edge_to_faces_calls. cbn beta iota zeta delta [fst snd].
+    rewrite guard_ok, !direct_face_correct. reflexivity.
+  Qed.
 
   Lemma opposite_face_correct u v F :
     p_opposite_face m f u v F
     = Ok (if oz_eqb (sp_direct_face faces u v) F then sp_direct_face faces v u
           else if oz_eqb (sp_direct_face faces v u) F then sp_direct_face faces u v else None).
-  Proof. unfold p_opposite_face. rewrite guard_ok, !direct_face_correct. reflexivity. Qed.
+  Proof.
+    unfold p_opposite_face, g_opposite_face_calls, g_opposite_face_ret. cbn beta iota zeta delta [fst snd].
+    rewrite guard_ok, !direct_face_correct. reflexivity.
+  Qed.
 
   Lemma vertex_to_corner_in_face_correct V F :
     p_vertex_to_corner_in_face m f V F = Ok (sp_vertex_to_corner_in_face faces V F).
@@ -131,7 +137,8 @@ Section Access.
   Lemma face_to_first_corner_correct F :
     p_face_to_first_corner m f F = of_opt EKey (sp_face_to_first_corner faces F).
   Proof.
-    unfold p_face_to_first_corner, p_adjF2Cn. rewrite guard_ok, CR_ok. cbn [bind].
-    destruct T4 as (T0 & es & S & (_ & _ & _ & E4)). rewrite E4, (ts_f2c _ _ _ _ S). reflexivity.
+    unfold p_face_to_first_corner, p_adjF2Cn, g_ftfc_key, g_ftfc_ret. rewrite guard_ok, CR_ok. cbn [bind].
+    destruct T4 as (T0 & es & S & (_ & _ & _ & E4)). rewrite E4, (ts_f2c _ _ _ _ S).
+    destruct (sp_face_to_first_corner faces F); reflexivity.
   Qed.
 End Access.
